@@ -1,7 +1,9 @@
-(* C04_Proofs.v — lemmas about the C04 model. *)
-From Verif Require Import Base C04_Model.
+(* C04_Proofs.v — basic lemmas about the C04 model: save-point stacks, scoping, the
+   primitive operations, monotonicity of the domain flags. *)
+From Verif Require Import Base C04_Model C04_Check.
 Open Scope Z_scope.
 
+(* ------------------------------------------------------------------ names, cuts *)
 Lemma spname_eqb_refl : forall n, spname_eqb n n = true.
 Proof. intros [n|k]; cbn; [apply Z.eqb_refl | apply Nat.eqb_refl]. Qed.
 
@@ -16,13 +18,237 @@ Qed.
 
 (* RollbackTo n restores exactly the snapshot taken by the most recent SavePoint n and keeps
    that save point; everything saved after it is gone *)
-Lemma rbto_exact : forall n snap above below w,
+Lemma sp_cut_exact : forall n snap above below,
   (forall x, In x above -> spname_eqb n (fst x) = false) ->
-  ref_rbto n (mkTx w (above ++ (n, snap) :: below)) = Some (mkTx snap ((n, snap) :: below)).
+  sp_cut n (above ++ (n, snap) :: below) = Some (snap, (n, snap) :: below).
 Proof.
-  intros n snap above below w H. unfold ref_rbto; cbn [sps].
+  intros n snap above below H.
   induction above as [|[n' t'] a IH]; cbn [app sp_cut].
   - rewrite spname_eqb_refl. reflexivity.
   - pose proof (H (n', t') (or_introl eq_refl)) as H0. cbn [fst] in H0. rewrite H0.
     apply IH. intros x Hx. apply H. right; exact Hx.
 Qed.
+
+Lemma rbto_exact : forall n snap above below w,
+  (forall x, In x above -> spname_eqb n (fst x) = false) ->
+  ref_rbto n (mkTx w (above ++ (n, snap) :: below)) = Some (mkTx snap ((n, snap) :: below)).
+Proof.
+  intros n snap above below w H. unfold ref_rbto; cbn [sps].
+  rewrite sp_cut_exact by exact H. reflexivity.
+Qed.
+
+(* the user-visible part of the SQL save-point stack *)
+Fixpoint fu (l : list (spname * tbl)) : ustack :=
+  match l with
+  | [] => []
+  | (NUser n, t) :: r => (n, t) :: fu r
+  | (NGen _, _) :: r => fu r
+  end.
+Definition unames (l : list (spname * tbl)) : list Z := map fst (fu l).
+
+Lemma fu_app : forall a b, fu (a ++ b) = fu a ++ fu b.
+Proof.
+  induction a as [|[[n|k] t] a IH]; intro b; cbn; [reflexivity| |]; rewrite IH; reflexivity.
+Qed.
+Lemma unames_app : forall a b, unames (a ++ b) = unames a ++ unames b.
+Proof. intros; unfold unames; rewrite fu_app, map_app; reflexivity. Qed.
+
+(* cutting the SQL stack at a user name = cutting its user-visible part *)
+Lemma cut_fu : forall n l,
+  match sp_cut (NUser n) l with
+  | Some (snap, l') => ucut n (fu l) = Some (snap, fu l')
+  | None => ucut n (fu l) = None
+  end.
+Proof.
+  intros n l; induction l as [|[[m|k] t] l IH]; cbn [sp_cut fu ucut spname_eqb].
+  - reflexivity.
+  - destruct (n =? m) eqn:E; [reflexivity | exact IH].
+  - exact IH.
+Qed.
+
+Inductive Sub : list Z -> list Z -> Prop :=
+| sub_nil : forall l, Sub [] l
+| sub_skip : forall a x l, Sub a l -> Sub a (x :: l)
+| sub_take : forall x a l, Sub a l -> Sub (x :: a) (x :: l).
+
+Lemma Sub_app_l : forall a p l, Sub a l -> Sub a (p ++ l).
+Proof. intros a p l H; induction p; cbn; [exact H | apply sub_skip, IHp]. Qed.
+Lemma Sub_tail : forall x a l, Sub (x :: a) l -> Sub a l.
+Proof.
+  intros x a l H; remember (x :: a) as xa eqn:Exa; revert x a Exa.
+  induction H as [l | a' y l H IH | y a' l H IH]; intros x a Exa.
+  - discriminate.
+  - apply sub_skip. eapply IH; eassumption.
+  - inversion Exa; subst. apply sub_skip; exact H.
+Qed.
+Lemma Sub_cutz : forall n a l, Sub a l -> Sub (cutz n a) l.
+Proof.
+  intros n a; induction a as [|x a IH]; intros l H; cbn.
+  - constructor.
+  - destruct (n =? x); [exact H | apply IH; eapply Sub_tail; exact H].
+Qed.
+Lemma memz_In : forall n l, memz n l = true -> In n l.
+Proof.
+  intros n l H; unfold memz in H; apply existsb_exists in H.
+  destruct H as [x [Hx E]]; apply Z.eqb_eq in E; subst; exact Hx.
+Qed.
+
+(* a name the body saved (avail) is found in the body's own part of the stack *)
+Lemma cut_local : forall local avail n base,
+  Sub avail (unames local) -> In n avail ->
+  exists snap local2, sp_cut (NUser n) (local ++ base) = Some (snap, local2 ++ base)
+                      /\ Sub (cutz n avail) (unames local2).
+Proof.
+  induction local as [|[[m|k] t] local IH]; intros avail n base HS HI.
+  - inversion HS; subst; destruct HI.
+  - cbn [app sp_cut spname_eqb]. unfold unames in HS; cbn [fu map fst] in HS.
+    destruct (n =? m) eqn:E.
+    + exists t, ((NUser m, t) :: local). split; [reflexivity|].
+      unfold unames; cbn [fu map fst]. apply Sub_cutz; exact HS.
+    + inversion HS as [l | a x l H | x a l H]; subst.
+      * destruct HI.
+      * apply (IH avail n base H HI).
+      * cbn [cutz]. rewrite E. destruct HI as [HI|HI]; [subst; rewrite Z.eqb_refl in E; discriminate|].
+        apply (IH a n base H HI).
+  - cbn [app sp_cut spname_eqb]. unfold unames in HS; cbn [fu] in HS.
+    apply (IH avail n base HS HI).
+Qed.
+
+(* ------------------------------------------------------------------ spec helpers *)
+Lemma spec_list_app : forall nest a b ts, spec_list nest (a ++ b) ts = spec_list nest b (spec_list nest a ts).
+Proof. intros; unfold spec_list; apply fold_left_app. Qed.
+Lemma spec_list_cons : forall nest o l ts, spec_list nest (o :: l) ts = spec_list nest l (spec_obs nest o ts).
+Proof. reflexivity. Qed.
+
+Definition stmt_errs_l (l : list obs) := flat_map stmt_errs l.
+Definition save_errs_l (l : list obs) := flat_map save_errs l.
+
+Lemma countf_app : forall k a b, countf k (a ++ b) = (countf k a + countf k b)%nat.
+Proof. intros; unfold countf; rewrite filter_app, app_length; reflexivity. Qed.
+
+Lemma cls_eqb_refl : forall c, cls_eqb c c = true.
+Proof.
+  intros [|[c w]|p]; cbn; try reflexivity; [|apply Z.eqb_refl].
+  unfold err_eqb; cbn. rewrite Bool.eqb_reflx, andb_true_r.
+  destruct c; cbn; try reflexivity. apply Z.eqb_refl.
+Qed.
+Lemma same_set_refl : forall l, same_set l l = true.
+Proof.
+  intro l. unfold same_set. rewrite Nat.eqb_refl, andb_true_r.
+  assert (H : forallb (fun x => memz x l) l = true).
+  { apply forallb_forall. intros x Hx. unfold memz. apply existsb_exists.
+    exists x; split; [exact Hx | apply Z.eqb_refl]. }
+  rewrite H; reflexivity.
+Qed.
+
+(* ------------------------------------------------------------------ flags *)
+Definition flags_le (f f' : flags) : Prop :=
+  (x_rb f = true -> x_rb f' = true) /\ (x_drop f = true -> x_drop f' = true)
+  /\ (x_spign f = true -> x_spign f' = true).
+Lemma flags_le_refl : forall f, flags_le f f.
+Proof. intro f; repeat split; auto. Qed.
+Lemma flags_le_trans : forall a b c, flags_le a b -> flags_le b c -> flags_le a c.
+Proof. intros a b c [A1 [A2 A3]] [B1 [B2 B3]]; repeat split; auto. Qed.
+
+Section Prims.
+Variable E : env.
+Variable C : cfg.
+Variable fault : nat -> bool.
+
+Lemma h_stmt_flags : forall w h s e n s1, h_stmt fault w h s = (e, n, s1) -> s_fl s1 = s_fl s.
+Proof.
+  intros w h s e n s1 H. unfold h_stmt, issue in H.
+  destruct h; [inversion H; reflexivity|].
+  destruct (s_tx s); [|inversion H; reflexivity].
+  destruct (fault _); [inversion H; reflexivity|].
+  destruct w; inversion H; reflexivity.
+Qed.
+
+Lemma exec_sp_flags : forall b n h s d s1, exec_sp E fault b n h s = (d, s1) -> s_fl s1 = s_fl s.
+Proof.
+  intros b n h s d s1 H. unfold exec_sp, issue in H.
+  destruct h; [inversion H; reflexivity|].
+  destruct (s_tx s); [|inversion H; reflexivity].
+  destruct (fault _); [inversion H; reflexivity|].
+  destruct b; [inversion H; reflexivity|].
+  destruct (sq_rbto E n t); inversion H; reflexivity.
+Qed.
+
+Lemma h_sp_flags : forall b n h s h1 s1, h_sp E C fault b n h s = (h1, s1) -> flags_le (s_fl s) (s_fl s1).
+Proof.
+  intros b n h s h1 s1 H. unfold h_sp in H.
+  destruct (exec_sp E fault b n h s) as [d s0] eqn:Ex. apply exec_sp_flags in Ex.
+  destruct (c_report C).
+  - inversion H; subst. rewrite Ex. apply flags_le_refl.
+  - inversion H; subst. destruct d; cbn; rewrite <- Ex; [|apply flags_le_refl].
+    repeat split; cbn; auto.
+Qed.
+
+Definition body_mono (body : option err -> st -> res * list obs * option err * st) : Prop :=
+  forall h s r l h' s', body h s = (r, l, h', s') -> flags_le (s_fl s) (s_fl s').
+
+Lemma nested_flags : forall body, body_mono body ->
+  forall h s r o h' s', nested E C fault body h s = (r, o, h', s') -> flags_le (s_fl s) (s_fl s').
+Proof.
+  intros body HB h s r o h' s' H. unfold nested in H.
+  destruct (c_nonest C).
+  - destruct (body h s) as [[[r0 l0] h0] s0] eqn:Eb. inversion H; subst. eapply HB; exact Eb.
+  - destruct (h_sp E C fault true (NGen (s_gen s)) h (next_gen s)) as [h1 s1] eqn:Es.
+    apply h_sp_flags in Es. cbn [next_gen s_fl] in Es.
+    destruct h1 as [e|]; [inversion H; subst; exact Es|].
+    destruct (body None s1) as [[[r0 l0] h0] s2] eqn:Eb. apply HB in Eb.
+    assert (F2 : flags_le (s_fl s) (s_fl s2)) by (eapply flags_le_trans; eassumption).
+    destruct r0.
+    + inversion H; subst; exact F2.
+    + destruct (h_sp E C fault false (NGen (s_gen s)) None (if fault (length (s_ops s2)) then flag_rb s2 else s2)) as [h2 s3] eqn:Er.
+      apply h_sp_flags in Er. inversion H; subst.
+      eapply flags_le_trans; [exact F2|]. eapply flags_le_trans; [|exact Er].
+      destruct (fault _); [|apply flags_le_refl]. repeat split; cbn; auto.
+    + destruct (h_sp E C fault false (NGen (s_gen s)) None (if fault (length (s_ops s2)) then flag_rb s2 else s2)) as [h2 s3] eqn:Er.
+      apply h_sp_flags in Er. inversion H; subst.
+      eapply flags_le_trans; [exact F2|]. eapply flags_le_trans; [|exact Er].
+      destruct (fault _); [|apply flags_le_refl]. repeat split; cbn; auto.
+Qed.
+
+Lemma run_body_flags : forall p, body_mono (run_body E C fault p).
+Proof.
+  induction p as [o | m chk k IHk | chk k IHk | b IHb chk k IHk | n k IHk | n k IHk];
+    intros h s r l h' s' H; cbn [run_body] in H.
+  - destruct o; inversion H; subst; apply flags_le_refl.
+  - destruct (h_stmt fault (Some m) h s) as [[e n0] s1] eqn:Es. apply h_stmt_flags in Es.
+    destruct e as [e|]; [destruct chk|].
+    + inversion H; subst. rewrite Es; apply flags_le_refl.
+    + destruct (run_body E C fault k h s1) as [[[r0 l0] h0] s0] eqn:Ek. apply IHk in Ek.
+      inversion H; subst. rewrite <- Es; exact Ek.
+    + destruct (run_body E C fault k h s1) as [[[r0 l0] h0] s0] eqn:Ek. apply IHk in Ek.
+      inversion H; subst. rewrite <- Es; exact Ek.
+  - destruct (h_stmt fault None h s) as [[e n0] s1] eqn:Es. apply h_stmt_flags in Es.
+    destruct e as [e|]; [destruct chk|].
+    + inversion H; subst. rewrite Es; apply flags_le_refl.
+    + destruct (run_body E C fault k h s1) as [[[r0 l0] h0] s0] eqn:Ek. apply IHk in Ek.
+      inversion H; subst. rewrite <- Es; exact Ek.
+    + destruct (run_body E C fault k h s1) as [[[r0 l0] h0] s0] eqn:Ek. apply IHk in Ek.
+      inversion H; subst. rewrite <- Es; exact Ek.
+  - destruct (nested E C fault (run_body E C fault b) h s) as [[[r0 o0] h1] s1] eqn:En.
+    apply (nested_flags _ IHb) in En.
+    destruct r0.
+    + destruct (run_body E C fault k h1 s1) as [[[r1 l1] h2] s2] eqn:Ek. apply IHk in Ek.
+      inversion H; subst. eapply flags_le_trans; eassumption.
+    + destruct chk; [inversion H; subst; exact En|].
+      match type of H with context [run_body E C fault k h1 ?sx] => set (s1' := sx) in * end.
+      destruct (run_body E C fault k h1 s1') as [[[r1 l1] h2] s2] eqn:Ek. apply IHk in Ek.
+      inversion H; subst. eapply flags_le_trans; [exact En|]. eapply flags_le_trans; [|exact Ek].
+      subst s1'. destruct o0; try apply flags_le_refl. destruct entered; [apply flags_le_refl|].
+      repeat split; cbn; auto.
+    + inversion H; subst; exact En.
+  - destruct (h_sp E C fault true (NUser n) h s) as [h1 s1] eqn:Es. apply h_sp_flags in Es.
+    destruct h1; [inversion H; subst; exact Es|].
+    destruct (run_body E C fault k None s1) as [[[r1 l1] h2] s2] eqn:Ek. apply IHk in Ek.
+    inversion H; subst. eapply flags_le_trans; eassumption.
+  - destruct (h_sp E C fault false (NUser n) h s) as [h1 s1] eqn:Es. apply h_sp_flags in Es.
+    destruct h1; [inversion H; subst; exact Es|].
+    destruct (run_body E C fault k None s1) as [[[r1 l1] h2] s2] eqn:Ek. apply IHk in Ek.
+    inversion H; subst. eapply flags_le_trans; eassumption.
+Qed.
+
+End Prims.
